@@ -414,9 +414,77 @@ def _flow_initialised(methods, steps, reach, field, selfn_of):
 
 def d2_init(ctx, idx):
     r = ctx.rule('D2.INIT', 'every per-solve field is assigned in compute() from the current argument on every path '
-                 'to the step loop', floor=11)
+                 'to the step loop; the path buffer holds 2n - 1 pairs', floor=12)
     with r:
         init_body(r, idx)
+
+
+
+def _linear_in_n(e, selfn):
+    """(a, b) with e == a * self.n + b, or None."""
+    e = nf.canon(e)
+    if cm.is_self_attr(e, selfn, 'n'):
+        return (1, 0)
+    if isinstance(e, ast.Constant) and isinstance(e.value, int) and not isinstance(e.value, bool):
+        return (0, e.value)
+    if isinstance(e, ast.BinOp):
+        l, rr = _linear_in_n(e.left, selfn), _linear_in_n(e.right, selfn)
+        if l is None or rr is None:
+            return None
+        if isinstance(e.op, ast.Add):
+            return (l[0] + rr[0], l[1] + rr[1])
+        if isinstance(e.op, ast.Sub):
+            return (l[0] - rr[0], l[1] - rr[1])
+        if isinstance(e.op, ast.Mult):
+            if l[0] == 0:
+                return (l[1] * rr[0], l[1] * rr[1])
+            if rr[0] == 0:
+                return (rr[1] * l[0], rr[1] * l[1])
+    return None
+
+
+def _path_capacity(r, comp, selfn, stmt, methods):
+    construct = 'Munkres.compute: self.path capacity'
+    v = stmt.value
+    where = lib.loc(comp, stmt)
+    dim, inner_ok = None, None
+    if isinstance(v, ast.Call) and cm.is_self_attr(v.func, selfn) and v.func.attr == '__make_matrix' and v.args:
+        dim, inner_ok = v.args[0], True          # a square dim x dim matrix
+    elif isinstance(v, ast.ListComp) and len(v.generators) == 1 and cm.is_call_to(v.generators[0].iter, 'range', 1) and not v.generators[0].ifs:
+        dim = v.generators[0].iter.args[0]
+        e = v.elt
+        if isinstance(e, ast.List):
+            inner_ok = len(e.elts) >= 2
+        elif isinstance(e, ast.BinOp) and isinstance(e.op, ast.Mult) and isinstance(e.left, ast.List) and isinstance(e.right, ast.Constant):
+            inner_ok = len(e.left.elts) * e.right.value >= 2
+        elif isinstance(e, ast.ListComp) and cm.is_call_to(e.generators[0].iter, 'range', 1):
+            lin = _linear_in_n(e.generators[0].iter.args[0], selfn)
+            inner_ok = None if lin is None else (lin[0] >= 0 and lin[0] + lin[1] >= 2)
+    elif isinstance(v, ast.BinOp) and isinstance(v.op, ast.Mult) and isinstance(v.left, ast.List):
+        dim = v.right
+    if dim is None:
+        r.undecided(construct, 'buffer built by `%s`' % short(v), where)
+        return
+    lin = _linear_in_n(dim, selfn)
+    if lin is None:
+        r.undecided(construct, 'first dimension `%s` is not linear in self.n' % short(dim), where)
+        return
+    a, b = lin
+    if inner_ok is False:
+        r.violation(construct, 'the entries of the path buffer hold fewer than two numbers: step 5 stores a (row, column) pair in each', where)
+    elif a >= 2 and a + b >= 1:
+        if inner_ok:
+            r.ok(construct, '%s entries >= 2n - 1 for every n >= 1' % short(dim), where)
+        else:
+            r.undecided(construct, 'entries of the buffer not recognised as pairs', where)
+    else:
+        n0 = 1
+        while a * n0 + b >= 2 * n0 - 1 and n0 < 1000:
+            n0 += 1
+        r.violation(construct, 'the path buffer has `%s` entries, fewer than the 2n - 1 the alternating path of step 5 can need (Z0, then a '
+                    'starred and a primed zero for each of up to n - 1 starred rows): for n >= %d step 5 runs past the end (IndexError) '
+                    'on matrices that need a long augmenting path' % (short(dim), n0), where, expected='>= 2 * self.n - 1 entries',
+                    found=short(dim))
 
 
 def init_body(r, idx):
@@ -510,6 +578,10 @@ def init_body(r, idx):
         if not bad:
             r.ok(construct, 'assigned before the step loop on every path from values of this call only (read by %s)' % needed[f],
                  lib.loc(comp, nodes[0].ast))
+    # capacity of the scratch buffer of step 5: the alternating path Z0, star, prime, ..., prime holds up to 2n - 1 entries
+    pn = inits('path')
+    if pn:
+        _path_capacity(r, comp, selfn, pn[0].ast, methods)
     # the working matrix derives from the argument
     cn = inits('C')
     if cn:
@@ -764,6 +836,8 @@ MUTANTS = [
            "\n        done = False\n        step = 1\n\n        steps = { 1 : self.__step1,\n                  2 : self.__step2,\n                  3 : self.__step3,\n                  4 : self.__step4,\n                  5 : self.__step5,\n                  6 : self.__step6 }\n\n        while not done:\n            try:\n                func = steps[step]\n                step = func()\n            except KeyError:\n                done = True\n        self.marked = self.__make_matrix(self.n, 0)\n", 'D2'),
     Mutant('n-assigned-after-use', MK, "        self.n = len(self.C)\n        self.original_length = len(cost_matrix)\n        self.original_width = len(cost_matrix[0])\n        self.row_covered = [False for i in range(self.n)]\n        self.col_covered = [False for i in range(self.n)]\n",
            "        self.original_length = len(cost_matrix)\n        self.original_width = len(cost_matrix[0])\n        self.row_covered = [False for i in range(self.n)]\n        self.col_covered = [False for i in range(self.n)]\n        self.n = len(self.C)\n", 'D2'),
+    Mutant('path-buffer-n-plus-one', MK, "        self.path = self.__make_matrix(self.n * 2, 0)\n", "        self.path = [[0, 0] for i in range(self.n + 1)]\n", 'D2'),
+    Mutant('path-buffer-n', MK, "        self.path = self.__make_matrix(self.n * 2, 0)\n", "        self.path = self.__make_matrix(self.n, 0)\n", 'D2'),
     Mutant('n-grows-only', MK, "        self.n = len(self.C)\n", "        self.n = max(self.n, len(self.C))\n", 'D2'),
     Mutant('result-rows-over-n', MK, "        for i in range(self.original_length):", "        for i in range(self.n):", 'D3'),
     Mutant('result-cols-over-n', MK, "            for j in range(self.original_width):", "            for j in range(self.n):", 'D3'),
@@ -791,6 +865,13 @@ MUTANTS = [
     Mutant('find-smallest-or', MK, "                if (not self.row_covered[i]) and (not self.col_covered[j]):\n                    if self.C[i][j] is not DISALLOWED and minval >",
            "                if (not self.row_covered[i]) or (not self.col_covered[j]):\n                    if self.C[i][j] is not DISALLOWED and minval >", 'D4'),
     Mutant('find-smallest-takes-largest', MK, "if self.C[i][j] is not DISALLOWED and minval > self.C[i][j]:", "if self.C[i][j] is not DISALLOWED and minval < self.C[i][j]:", 'D4'),
+    Mutant('step1-only-original-part', MK, "        n = self.n\n        for i in range(n):\n            vals = [x for x in self.C[i] if x is not DISALLOWED]",
+           "        n = self.original_width\n        for i in range(self.original_length):\n            vals = [x for x in self.C[i][:n] if x is not DISALLOWED]", 'D4'),
+    Mutant('step6-only-original-rows', MK, "        for i in range(self.n):\n            for j in range(self.n):\n                if self.C[i][j] is DISALLOWED:\n                    continue",
+           "        for i in range(self.original_length):\n            for j in range(self.n):\n                if self.C[i][j] is DISALLOWED:\n                    continue", 'D4'),
+    Mutant('erase-primes-only-covered-rows', MK, "        for i in range(self.n):\n            for j in range(self.n):\n                if self.marked[i][j] == 2:",
+           "        for i in range(self.n):\n            if not self.row_covered[i]:\n                continue\n            for j in range(self.n):\n                if self.marked[i][j] == 2:", 'D4'),
+    Mutant('clear-covers-rows-of-covered-columns', MK, "            self.row_covered[i] = False\n            self.col_covered[i] = False", "            if self.col_covered[i]:\n                self.row_covered[i] = False\n            self.col_covered[i] = False", 'D4'),
     Mutant('step1-subtracts-max', MK, "            minval = min(vals)", "            minval = max(vals)", 'D4'),
     Mutant('step1-subtracts-twice', MK, "                    self.C[i][j] -= minval\n        return 2", "                    self.C[i][j] -= 2 * minval\n        return 2", 'D4'),
     Mutant('step2-covers-not-cleared', MK, "        self.__clear_covers()\n        return 3\n\n    def __step3", "        return 3\n\n    def __step3", 'D4'),
@@ -836,6 +917,9 @@ BENIGN = [
            "        while True:\n            try:\n                step = steps[step]()\n            except KeyError:\n                break\n"),
     Benign('make-cost-matrix-comprehension', MK, "    cost_matrix = []\n    for row in profit_matrix:\n        cost_matrix.append([inversion_function(value) for value in row])\n    return cost_matrix",
            "    return [[inversion_function(value) for value in row] for row in profit_matrix]"),
+    Benign('path-buffer-pairs', MK, "        self.path = self.__make_matrix(self.n * 2, 0)\n", "        self.path = [[0, 0] for i in range(2 * self.n)]\n"),
+    Benign('clear-covers-redundant-test', MK, "            self.row_covered[i] = False\n            self.col_covered[i] = False", "            self.row_covered[i] = False\n            if not self.row_covered[i]:\n                self.col_covered[i] = False"),
+    Benign('clear-covers-guarded', MK, "            self.row_covered[i] = False\n            self.col_covered[i] = False", "            if self.row_covered[i]:\n                self.row_covered[i] = False\n            self.col_covered[i] = False"),
     Benign('step6-by-cases', MK, "                if self.row_covered[i]:\n                    self.C[i][j] += minval\n                    events += 1\n                if not self.col_covered[j]:\n                    self.C[i][j] -= minval\n                    events += 1\n                if self.row_covered[i] and not self.col_covered[j]:\n                    events -= 2 # change reversed, no real difference\n",
            "                if self.row_covered[i] and self.col_covered[j]:\n                    self.C[i][j] += minval\n                    events += 1\n                elif not self.row_covered[i] and not self.col_covered[j]:\n                    self.C[i][j] -= minval\n                    events += 1\n"),
     Benign('find-smallest-de-morgan', MK, "                if (not self.row_covered[i]) and (not self.col_covered[j]):\n                    if self.C[i][j] is not DISALLOWED and minval >",
